@@ -1492,6 +1492,15 @@ func (u *Unit) canUnroll(fr *Frame, li *loopInfo) bool {
 		if bo, ok := in.(*ssa.BinOp); ok && bo.Op == token.LSS {
 			if call, ok := bo.Y.(*ssa.Call); ok {
 				if b, ok := call.Call.Value.(*ssa.Builtin); ok && b.Name() == "len" {
+					// dynamically: the slice value is backed by a constant-length local array
+					// (also when the loop lives in an inlined helper that receives the slice)
+					if fr != nil && fr.vals != nil {
+						if v, ok := fr.vals[call.Call.Args[0]]; ok {
+							if sv, ok := v.(*SliceV); ok && sv.Cell != nil {
+								return true
+							}
+						}
+					}
 					if sl, ok := call.Call.Args[0].(*ssa.Slice); ok {
 						if al, ok := sl.X.(*ssa.Alloc); ok {
 							if _, ok := al.Type().(*types.Pointer).Elem().Underlying().(*types.Array); ok {
@@ -1580,6 +1589,26 @@ func (u *Unit) bindHeadPhis(env *Env, fr *Frame, li *loopInfo) {
 		}
 		if v, ok := fr.vals[phi]; ok && phi.Comment != "" {
 			env.vars[phi.Comment] = v
+		}
+	}
+	// $v: the loop-carried variable, when there is exactly one (keeps
+	// invariants independent of the local's name)
+	var varying []*ssa.Phi
+	for _, in := range li.head.Instrs {
+		phi, ok := in.(*ssa.Phi)
+		if !ok {
+			break
+		}
+		for k, p := range li.head.Preds {
+			if li.body[p] && li.head.Dominates(p) && phi.Edges[k] != ssa.Value(phi) {
+				varying = append(varying, phi)
+				break
+			}
+		}
+	}
+	if len(varying) == 1 {
+		if v, ok := fr.vals[varying[0]]; ok {
+			env.vars["$v"] = v
 		}
 	}
 }
